@@ -157,8 +157,43 @@ def metamorphic(ctx: Ctx) -> None:
              "k{i} = int(0)  # noqa: E501", "l{i} = not not a0  # an ordinary comment", "m{i} = str('#') and not not a0", "n{i} = int(0)  # noqa: FURB999, E501",
              "o{i} = int(0)  # type: ignore[misc]", "p{i} = str('# noqa: E501') and int(0)",
              "e{i} = int(\n    0\n)", "f{i} = [\n    not not a0,\n    int(0),\n]", "for g{i} in (1,):\n    print('')", "h{i} = (a0\n    if a0 else 2)"]
+    # indented blocks, with diagnostics of checks that look at a whole block (consecutive appends, a swap through a temporary) beside
+    # diagnostics of single expressions: a comment on one line of a block acts on that line alone
+    stmts += ["def fn{i}(xs: list[int]) -> None:\n    y{i} = int(0)\n    xs.append(1)\n    xs.append(2)\n    z{i} = not not y{i}",
+              "if a0:\n    t{i} = int(0)\n    u{i} = [a0]\n    u{i}.append(1)\n    u{i}.append(2)",
+              "class K{i}:\n    w{i} = str('')\n    def m(self, xs: list[int]) -> None:\n        v = int(0)\n        xs.append(v)\n        xs.append(v)",
+              "for q{i} in (1,):\n    r{i} = int(0)\n    tmp{i} = a0\n    a0 = r{i}\n    r{i} = tmp{i}",
+              "while a0:\n    a0 = int(0)\n    ws{i} = [1]\n    ws{i}.append(2)\n    ws{i}.append(3)\n    break"]
     specials = ["s{i} = 'x\x0cy'", "s{i} = 'x\x0by'", "s{i} = 'x\x1cy'", "s{i} = 'x y'", "s{i} = 'x\x85y'", "# comment \x0c here", "s{i} = '''a\nb'''"]
     with tempfile.TemporaryDirectory(prefix="c08m-") as td:
+        # systematically: a program made of every block unit; a blanket comment on each of its lines in turn
+        import io as _io0
+        import tokenize as _tk0
+        blocks = [u.replace("{i}", str(k)) for k, u in enumerate(stmts) if "\n    " in u and not u.startswith(("e{i}", "f{i}", "h{i}"))]
+        phys0 = ("a0 = 1\n" + "\n".join(blocks)).split("\n")
+        base0 = Path(td) / "blocks_base.py"
+        base0.write_text("\n".join(phys0) + "\n")
+        diag0 = {(e.line, f"{e.prefix}{e.code}") for e in run_refurb(Settings(files=[str(base0)], quiet=True)) if not isinstance(e, str)}
+        ctx.count("block-program-diagnostics", len(diag0))
+        for ln in range(1, len(phys0) + 1):
+            cand = list(phys0)
+            cand[ln - 1] += "  # noqa"
+            try:
+                toks = list(_tk0.generate_tokens(_io0.StringIO("\n".join(cand) + "\n").readline))
+            except (_tk0.TokenError, SyntaxError, IndentationError):
+                continue
+            if not any(t_.type == _tk0.COMMENT and t_.start[0] == ln for t_ in toks):
+                continue
+            f0 = Path(td) / f"blocks_{ln}.py"
+            f0.write_text("\n".join(cand) + "\n")
+            got0 = {(e.line, f"{e.prefix}{e.code}") for e in run_refurb(Settings(files=[str(f0)], quiet=True)) if not isinstance(e, str)}
+            want0 = {(l2, c) for l2, c in diag0 if l2 != ln}
+            ctx.case(("blocks-line", ln), nontrivial=True)
+            ctx.count("blanket-comment-on-each-line-of-the-block-program")
+            if got0 != want0:
+                ctx.report("noqa:metamorphic:other-line-affected" if any(l2 != ln for l2, _ in want0 - got0) else "noqa:metamorphic:any-line",
+                           f"a blanket `# noqa` on line {ln} (`{phys0[ln - 1].strip()[:50]}`): the report lost {sorted(want0 - got0)} and kept {sorted(got0 - want0)} unexpectedly",
+                           {"program": "\n".join(cand) + "\n", "comment_on_line": ln, "expected": sorted(want0), "got": sorted(got0), "without_the_comment": sorted(diag0)})
         for t in range(ctx.budget(12, 150)):
             lines = ["a0 = 1"]
             for i in range(1, rng.randrange(4, 10)):
@@ -206,6 +241,33 @@ def metamorphic(ctx: Ctx) -> None:
                     pick = [codes_here[0], "FURB999"]
                     new[idx] += "  # noqa: " + ",".join(pick)
                     expect -= {(ln, codes_here[0])}
+            # the same on ANY physical line (also lines without a diagnostic, first lines of blocks, lines inside a block):
+            # a comment that really is a comment there takes away what is reported for that line and nothing else
+            import io as _io
+            import tokenize as _tk
+            phys = "\n".join(lines).split("\n")
+            for ln in rng.sample(range(1, len(phys) + 1), min(len(phys), rng.choice([1, 2, 3]))):
+                codes_here = sorted(c for l2, c in diag if l2 == ln)
+                style = rng.random()
+                listed = rng.sample(codes_here, rng.randrange(1, len(codes_here) + 1)) if codes_here and style >= 0.5 else None
+                cand = list(phys)
+                cand[ln - 1] += "  # noqa" + ("" if listed is None else ": " + ", ".join(listed))
+                try:
+                    toks = list(_tk.generate_tokens(_io.StringIO("\n".join(cand) + "\n").readline))
+                except (_tk.TokenError, SyntaxError, IndentationError):
+                    continue
+                if not any(t_.type == _tk.COMMENT and t_.start[0] == ln and "noqa" in t_.string for t_ in toks) or any(s_ in cand[ln - 1] for s_ in SEPS):
+                    continue                      # inside a string literal, or a line the tokenizer splits differently
+                f2 = Path(td) / f"m{t}_line{ln}.py"
+                f2.write_bytes((bom + nl.join(cand) + nl).encode("utf8"))
+                got2 = {(e.line, f"{e.prefix}{e.code}") for e in run_refurb(Settings(files=[str(f2)], quiet=True)) if not isinstance(e, str)}
+                want2 = {(l2, c) for l2, c in diag if not (l2 == ln and (listed is None or c in listed))}
+                ctx.case(("meta-line", "\n".join(cand)), nontrivial=True)
+                ctx.count("metamorphic-any-line" + ("" if codes_here else ":line-without-diagnostic"))
+                if got2 != want2:
+                    ctx.report("noqa:metamorphic:other-line-affected" if (want2 - got2) and any(l2 != ln for l2, _ in want2 - got2) else "noqa:metamorphic:any-line",
+                               f"`{cand[ln - 1].strip()[:60]}` on line {ln}: the report lost {sorted(want2 - got2)} and kept {sorted(got2 - want2)} unexpectedly",
+                               {"program": (bom + nl.join(cand) + nl), "comment_on_line": ln, "expected": sorted(want2), "got": sorted(got2), "without_the_comment": sorted(diag)})
             f = Path(td) / f"m{t}.py"
             f.write_bytes((bom + nl.join(new) + nl).encode("utf8"))
             out1 = run_refurb(Settings(files=[str(f)], quiet=True))
